@@ -116,6 +116,15 @@ theorem wnPoly_cyclic_shift (pt a b : K × K) (rest : List (K × K)) :
 theorem convexHull_correct_partial (pts : List (K × K)) : ∀ x ∈ convexHull pts, x ∈ pts :=
   fun x hx => convexHull_subset pts x hx
 
+/-- Tier 3, partial: the lower chain `l` and the upper chain `u` computed by the two scans are
+    chains of strict left turns (every three consecutive vertices turn strictly left), and the
+    result is `l ++ u[1:-1]`.  (Missing: the turns at the two junctions and containment of all
+    input points.) -/
+theorem convexHull_chains_turn_left_partial (pts : List (K × K)) :
+    LeftChainFwd (halfHull (sortLex pts)) ∧ LeftChainFwd (halfHull (sortLex pts).reverse) ∧
+    convexHull pts = halfHull (sortLex pts) ++ ((halfHull (sortLex pts).reverse).drop 1).dropLast :=
+  ⟨halfHull_left_turns _, halfHull_left_turns _, rfl⟩
+
 /-! ## `ray.intersect` -/
 
 /-- Status COLINEAR is reported exactly when every component of `d₁ × d₂` is below `tol` in absolute
@@ -226,6 +235,21 @@ theorem voxelGrid_covers_bbox (bmin bmax : K × K × K) (sz : ℕ × ℕ × ℕ)
     (h1 : bmin.1 ≤ bmax.1) (h2 : bmin.2.1 ≤ bmax.2.1) (h3 : bmin.2.2 ≤ bmax.2.2)
     (p : K × K × K) (hp : inBox bmin bmax p) : ∃ v ∈ g, inBox v.1 v.2 p :=
   generateVoxelGrid_covers bmin bmax sz useCubes fuel g h h1 h2 h3 p hp
+
+/-- Cuboid voxels on a bounding box of positive extent: the grid is the full product of `size`
+    values `min + j·step` per axis (x slowest, z fastest) and has `s₀·s₁·s₂` voxels; fuel `max size`
+    suffices, i.e. `frange` stops after exactly `size` values. -/
+theorem voxelGrid_cuboid_count (bmin bmax : K × K × K) (sz : ℕ × ℕ × ℕ) (fuel : ℕ)
+    (hs1 : 2 ≤ sz.1) (hs2 : 2 ≤ sz.2.1) (hs3 : 2 ≤ sz.2.2)
+    (h1 : bmin.1 < bmax.1) (h2 : bmin.2.1 < bmax.2.1) (h3 : bmin.2.2 < bmax.2.2)
+    (hf1 : sz.1 ≤ fuel) (hf2 : sz.2.1 ≤ fuel) (hf3 : sz.2.2 ≤ fuel) :
+    let s := voxelSteps bmin bmax sz false
+    ∃ g, generateVoxelGrid bmin bmax sz false fuel = some g ∧
+      g = (List.range sz.1).flatMap (fun (i : ℕ) => (List.range sz.2.1).flatMap (fun (j : ℕ) => (List.range sz.2.2).map (fun (k : ℕ) =>
+        ((bmin.1 + (i : K) * s.1, bmin.2.1 + (j : K) * s.2.1, bmin.2.2 + (k : K) * s.2.2),
+         (bmin.1 + (i : K) * s.1 + s.1, bmin.2.1 + (j : K) * s.2.1 + s.2.1, bmin.2.2 + (k : K) * s.2.2 + s.2.2))))) ∧
+      g.length = sz.1 * (sz.2.1 * sz.2.2) :=
+  generateVoxelGrid_cuboid bmin bmax sz fuel hs1 hs2 hs3 h1 h2 h3 hf1 hf2 hf3
 
 /-- **Filled iff some sampled point inside**: `voxelize` returns one flag per voxel, and the flag
     of voxel `i` is 1 exactly when some sampled point lies in the voxel padded by `tol`. -/
